@@ -14,6 +14,7 @@ import tempfile
 import time
 
 from . import build
+from . import fuzzstage
 
 VERIF = build.VERIF
 # VERIF_OUT_DIR: development aid (runs against seeded/planted worktrees must not overwrite the evidence of the real tree)
@@ -350,6 +351,9 @@ def run_check(pid, cfg, tier, seed, jobs, replay=None):
     skip_reasons = {}
     per_stage = []
     san_counts = {}
+    fuzz_state = {}
+    fuzz_dirs = []
+    stage_env = {}
     try:
         for si, st in enumerate(stages):
             flavour = st["flavour"]
@@ -361,6 +365,32 @@ def run_check(pid, cfg, tier, seed, jobs, replay=None):
                 harness_errors.append(str(e))
                 break
             cases = st["cases"]
+            wd_pre = os.path.join(workroot, "s%d" % si)
+            os.makedirs(wd_pre, exist_ok=True)
+            pre_env = {}
+            if st.get("pre") and not replay:
+                # stages that judge a directory of inputs (C17 mode "corpus"): committed corpus, or a fresh libFuzzer campaign
+                try:
+                    if st["pre"] == "corpus_dir":
+                        d_, n_, stats_ = fuzzstage.corpus_dir(st)
+                    elif st["pre"] == "libfuzzer":
+                        d_, n_, stats_ = fuzzstage.libfuzzer(st, seed, wd_pre, jobs)
+                        fuzz_state["dir"], fuzz_state["n"] = d_, n_
+                    elif st["pre"] == "reuse_fuzz":
+                        d_, n_, stats_ = fuzz_state["dir"], fuzz_state["n"], {}
+                    else:
+                        raise build.BuildError("unknown pre-step %s" % st["pre"])
+                except (build.BuildError, OSError, subprocess.SubprocessError, KeyError) as e:
+                    harness_errors.append("pre-step %s failed: %s" % (st["pre"], e))
+                    break
+                for k_, v_ in stats_.items():
+                    obs[k_] = max(obs.get(k_, 0), v_)
+                if n_ == 0:
+                    harness_errors.append("pre-step %s produced no inputs (%s)" % (st["pre"], d_))
+                    break
+                cases = n_
+                pre_env = {"VERIF_C17_CORPUS": d_}
+                fuzz_dirs.append(d_)
             wrapper = None
             if flavour == "memcheck":
                 wrapper = ["valgrind", "--tool=memcheck", "--error-exitcode=97", "--track-origins=yes", "--quiet",
@@ -370,9 +400,14 @@ def run_check(pid, cfg, tier, seed, jobs, replay=None):
             wd = os.path.join(workroot, "s%d" % si)
             os.makedirs(wd, exist_ok=True)
             extra_env = dict(st.get("env", {}))
+            extra_env.update(pre_env)
+            if replay and rj.get("env"):
+                extra_env.update(rj["env"])
             extra_args = list(st.get("args", []))
             if st.get("mode"):
                 extra_env["VERIF_MODE"] = st["mode"]
+            if pre_env:
+                stage_env[(flavour, st.get("mode", ""))] = pre_env
             ts = time.time()
             results = []
             with cf.ThreadPoolExecutor(nsh) as ex:
@@ -431,6 +466,20 @@ def run_check(pid, cfg, tier, seed, jobs, replay=None):
             log("%s stage %d/%d %s[%s%s]: %d/%d cases, %d nontrivial, %.0fs" % (
                 pid, si + 1, len(stages), hname, flavour, ("," + st["mode"]) if st.get("mode") else "", st_cases, cases, st_nontriv,
                 time.time() - ts))
+        # inputs of a libFuzzer campaign live in the work directory: keep them for the replay of violations found in them
+        for v in violations:
+            pe = stage_env.get((v["flavour"], v["mode"]))
+            if not pe:
+                continue
+            src = pe["VERIF_C17_CORPUS"]
+            if src.startswith(workroot):
+                dst = os.path.join(REPLAY_DIR, pid, "fuzz-inputs-seed%s" % seed)
+                if not os.path.isdir(dst):
+                    os.makedirs(os.path.dirname(dst), exist_ok=True)
+                    shutil.copytree(src, dst)
+                v["env"] = {"VERIF_C17_CORPUS": dst}
+            else:
+                v["env"] = dict(pe)
     finally:
         shutil.rmtree(workroot, ignore_errors=True)
 
@@ -452,7 +501,7 @@ def run_check(pid, cfg, tier, seed, jobs, replay=None):
         rp = os.path.join(REPLAY_DIR, pid, fn)
         with open(rp, "w") as f:
             json.dump(dict(property=pid, key=v["key"], kind=v["kind"], flavour=v["flavour"], harness=v["harness"], mode=v["mode"],
-                           seed=seed, tier=tier, idx=v["idx"], desc=v["desc"], witness=v["witness"],
+                           seed=seed, tier=tier, idx=v["idx"], desc=v["desc"], witness=v["witness"], env=v.get("env"),
                            cmd="./check %s --replay %s" % (pid, os.path.relpath(rp, VERIF))), f, indent=1)
         new_violation_paths.append((v["key"], rp))
     for key, kh in sorted(known_hits.items()):
